@@ -23,4 +23,17 @@ def run_unit(name, info, tier, seed, pid):
     spec = importlib.util.spec_from_file_location("engine_" + name, p)
     m = importlib.util.module_from_spec(spec)
     spec.loader.exec_module(m)
-    return m.run(tier=tier, seed=seed, pid=pid)
+    # one run of an engine at a time per tree under test: the engines keep their generated crates / goto binaries / cargo target
+    # in a work directory keyed by the tree, and two concurrent checks (e.g. C13 and C14 both run panic_bytes, or the quick and
+    # the thorough command of one property) must not build into it at the same time
+    import fcntl
+    import hashlib
+    tag = hashlib.sha1(os.path.abspath(os.environ.get("VERIF_REPO", "/repo")).encode()).hexdigest()[:8]
+    ld = os.path.join(VERIF, "build", "locks")
+    os.makedirs(ld, exist_ok=True)
+    with open(os.path.join(ld, "%s_%s.lock" % (name, tag)), "w") as lk:
+        fcntl.flock(lk, fcntl.LOCK_EX)
+        try:
+            return m.run(tier=tier, seed=seed, pid=pid)
+        finally:
+            fcntl.flock(lk, fcntl.LOCK_UN)
